@@ -1,5 +1,6 @@
 import Model.Cache
 import Model.Numscript.Spec
+import Lemmas.Syntax
 /-! C08 — compiled programs do what the source says.
 `Spec.run` is the definition of "what the source text says".  What is proved here (growing):
 * rejection: a program the static rules reject is refused, never run (`rejected_not_run`);
@@ -76,5 +77,48 @@ theorem cache_transparent_seq {Text Key Prog : Type} [DecidableEq Key]
 /-! non-vacuity: a two-entry cache with eviction of everything but the newest entry -/
 example : cachedCompile (Text := String) (fun (t : String) => t.length) (fun t => some t) (fun c => c.take 1) [(2, "ab")] "xyz"
     = (some "xyz", [(3, "xyz")]) := by decide
+
+end C08
+
+/-! ### front end (Syntax) -/
+/-! The text level: `runText` = `Syntax.lex`, `Syntax.parse`, then `Spec.run` (the front-end model is tied to the
+ANTLR lexer/parser by the differential of `checks/syntaxlib.py`). -/
+namespace C08
+open Num Num.Syntax
+
+/-- a text the front end rejects (lexer or parser error) is never run, whatever the variables and the store -/
+theorem syntax_rejected_not_run (t : String) (req : Request) (store : Store) (h : front t = none) :
+    runText t req store = .error .compile := by
+  unfold front at h
+  simp [runText, runChars, h]
+
+/-- the same for the raw bytes the Go entry point receives -/
+theorem syntax_rejected_not_run_bytes (bs : List UInt8) (req : Request) (store : Store)
+    (h : frontChars (decodeRunes bs) = none) : runBytes bs req store = .error .compile := by
+  simp [runBytes, runChars, h]
+
+/-- a lexer error alone rejects: one character no rule matches and nothing of the text is run -/
+theorem lexer_error_not_run (t : String) (e : LexErr) (req : Request) (store : Store) (h : lex t = .error e) :
+    runText t req store = .error .compile := by
+  apply syntax_rejected_not_run
+  unfold lex at h
+  simp [front, frontChars, h]
+
+/-- an accepted text means exactly its syntax tree: every theorem about `Spec.run` speaks about texts -/
+theorem text_runs_its_tree (t : String) (P : Script) (req : Request) (store : Store) (h : front t = some P) :
+    runText t req store = run P req store := by
+  unfold front at h
+  simp [runText, runChars, h]
+
+/-- … in particular the static rules: accepted syntax, rejected program, nothing runs -/
+theorem rejected_not_run_text (t : String) (P : Script) (req : Request) (store : Store) (h : front t = some P)
+    (hc : check P = false) : runText t req store = .error .compile := by
+  rw [text_runs_its_tree t P req store h]
+  exact rejected_not_run P req store hc
+
+/-! non-vacuity: a rejected and an accepted text -/
+example : front "fail fail" = none := by decide
+example : (front "save [USD 1] from @a").isSome = true := by decide
+example : ∃ e, lex "fail #" = .error e := ⟨⟨1⟩, by rfl⟩
 
 end C08
